@@ -16,7 +16,7 @@ pub const CHECK: Check = Check {
     id: "C10",
     run,
     case_fn,
-    rule: "three families. inputs: a generated (test cases, settings) case is rebuilt from permuted and duplicated lists and must equal the canonical build (fresh builder, sorted de-duplicated list). histories: a generated sequence of builder calls (set flag, set threshold, set escape(bool), without_anchors, build, clone-and-continue) is interpreted on the real builder and on a model (flags OR, thresholds and escape last-wins); every intermediate and the final build() must equal a fresh canonical build for the model settings. seeds/schedules: the same build is repeated in one process (every HashSet draws a new RandomState), on 16 threads concurrently and in fresh child processes. Non-trivial = the minimiser merged states (hook: trie states > minimised states), or the history contains an interleaved build or clone. Distinct = hash of (test cases, settings, history).",
+    rule: "four families. interference: a build under settings B right after a build under settings A on the same thread must equal B on a fresh thread. inputs: a generated (test cases, settings) case is rebuilt from permuted and duplicated lists and must equal the canonical build (fresh builder, sorted de-duplicated list). histories: a generated sequence of builder calls (set flag, set threshold, set escape(bool), without_anchors, build, clone-and-continue) is interpreted on the real builder and on a model (flags OR, thresholds and escape last-wins); every intermediate and the final build() must equal a fresh canonical build for the model settings. seeds/schedules: the same build is repeated in one process (every HashSet draws a new RandomState), on 16 threads concurrently and in fresh child processes. Non-trivial = the minimiser merged states (hook: trie states > minimised states), or the history contains an interleaved build or clone. Distinct = hash of (test cases, settings, history).",
     assumptions: &["threads and processes are run, not enumerated; grex has no shared mutable state (three immutable lazy tables), so hash-seed variation is the plausible source and is driven directly"],
 };
 
@@ -199,6 +199,23 @@ pub fn case_fn(sub: &str, case: &Case, stats: &mut Stats) -> Result<(), String> 
         }
     }
 
+    // (iv) interference between builds: the same build after an unrelated build on this thread
+    // must equal the build on a fresh thread (fresh thread-locals); catches caches keyed on too little
+    if let Some(prev) = case.extra.get("prev_cfg") {
+        if let Ok(prev_cfg) = serde_json::from_value::<Cfg>(prev.clone()) {
+            let fresh = std::thread::scope(|s| s.spawn(|| build(&case.tcs, cfg)).join().unwrap()).map_err(build_err)?;
+            let _ = build(&case.tcs, &prev_cfg).map_err(build_err)?;
+            let after = build(&case.tcs, cfg).map_err(build_err)?;
+            stats.evals(3);
+            if after != fresh {
+                return Err(format!(
+                    "build [{}] gives {:?} on a fresh thread but {:?} right after a build with [{}] on the same thread (tcs {:?})",
+                    cfg.tag(), fresh, after, prev_cfg.tag(), case.tcs
+                ));
+            }
+        }
+    }
+
     // (ii) histories
     if let Some(h) = history {
         let r = guarded(|| -> Result<(), String> {
@@ -297,6 +314,31 @@ fn run(ctx: &mut Ctx) {
             .boxed()
     };
     ctx.generated("inputs-case", &strat_c, total_c, &|s, c, st| case_fn(s, c, st));
+
+    // interference: build under settings A, then under settings B (same test cases, same thread)
+    let total_i = ctx.tier.pick(10_000, 150_000);
+    let strat_i = move || {
+        (case_strategy(&["repeat", "abc", "digits", "boundary", "cased"], false, W_REPEAT, 5, 5, fix), cfg_strategy())
+            .prop_map(|(mut c, b)| {
+                let mut a = c.cfg.clone();
+                a.repetitions = true;
+                a.min_rep = 1;
+                a.min_len = 1;
+                let mut bb = fix(b);
+                bb.repetitions = true;
+                if bb.min_rep > 6 {
+                    bb.min_rep = 2;
+                }
+                if bb.min_len > 6 {
+                    bb.min_len = 2;
+                }
+                c.cfg = bb;
+                c.extra = json!({"pool": c.extra["pool"], "prev_cfg": a});
+                c
+            })
+            .boxed()
+    };
+    ctx.generated("interference", &strat_i, total_i, &|s, c, st| case_fn(s, c, st));
 
     // crossing families: the shape on which equivalent states have different edge orders
     let syms = ["a", "b", "c", "d", "1", "2", "x", "y"];
